@@ -143,6 +143,13 @@ def generate(rng, tier, index):
         plan["at"] = rng.choice([{"abs": 0}, {"abs": 1}, {"fromend": 1}, {"frac": rng.random()},
                                  {"frac": rng.random()}])
         plan["preexisting"] = rng.choice(["none", "none", "complete"])
+        # "racing": the paused writer is released just before the default open starts and goes
+        # on writing in small chunks while the reader is at work (the index GROWS between two
+        # looks of the reader); virtual time passes with every scheduler step, so that a reader
+        # that sleeps and looks again finds the writer still busy
+        plan["race"] = rng.random() < 0.5
+        plan["chunk"] = rng.choice([16, 64, 256, 1000])
+        plan["step_cost"] = rng.choice([0.0, 0.001, 0.02, 0.05, 0.2])
         return plan
     plan["writers"] = ["option", rng.choice(["option", "option", "cli"] if local else ["option"])]
     if rng.random() < 0.3:
@@ -166,6 +173,7 @@ def generate(rng, tier, index):
                           for i in range(len(plan["writers"]))]
     plan["readers"] = rng.choice([0, 1, 1, 2])
     plan["chunk"] = rng.choice([1, 7, 64, 512, 1000, 4096, 8192])
+    plan["step_cost"] = rng.choice([0.0, 0.0, 0.001, 0.02, 0.05])
     return plan
 
 
@@ -604,6 +612,16 @@ def _run_s1_s2_once(c, ref, docs, hashdir, at):
         # creation
         c.bump("stale-not-reached")
         return
+    if plan.get("preexisting") == "stale":
+        # a creation that was interrupted BEFORE it touched the old index (e.g. while writing a
+        # temporary file that is renamed at the end) leaves the earlier delivery's index exactly
+        # as it was: a stale cache again, not a torn one
+        where_s = "adjacent" if plan["writer"] == "cli" else "user"
+        now = c.w.adjacent() if where_s == "adjacent" else {
+            fn: data for (d, fn), data in c.w.user_cache().items()}
+        if all(now.get(name + ".index") == d for name, d in (c.stale_docs or {}).items()):
+            c.bump("stale-untouched")
+            return
     ok = c.default_open_ok(ref, where, **ctx)
     if ok and writer == "cli" and plan.get("tool_rerun_rpc", "no") != "no":
         # "a later successful creation repairs it" - here by the tool itself, with another rpc
@@ -628,7 +646,11 @@ def run_s3(c, ref):
     SIM.write_plan = {"kind": "pause", "actor": "W", "match": "xdg/", "nth": plan["nth"], "at": k}
     rng = random.Random(plan["sched_seed"])
     s = Sched(rng=rng, script=plan.get("schedule"), switch_p=plan["switch_p"], max_steps=200000)
+    s.step_cost = float(plan.get("step_cost") or 0.0)
     results = {}
+    race = bool(plan.get("race"))
+    if race:
+        SIM.write_chunk = plan.get("chunk", 64)
 
     def writer():
         return _writer(c, "option")
@@ -636,8 +658,13 @@ def run_s3(c, ref):
     def driver():
         s.wait_until(lambda: "W" in s.suspended or "W" in s.done)
         results["paused"] = "W" in s.suspended
-        results["during"] = c.default_open_ok(ref, "S3:during", k=k, doc_len=len(docs[img]))
-        s.resume("W")
+        if race:
+            s.resume("W")
+            c.bump("s3-racing")
+            results["during"] = c.default_open_ok(ref, "S3:racing", k=k, doc_len=len(docs[img]))
+        else:
+            results["during"] = c.default_open_ok(ref, "S3:during", k=k, doc_len=len(docs[img]))
+            s.resume("W")
         s.wait_until(lambda: "W" in s.done)
         return True
 
@@ -647,6 +674,7 @@ def run_s3(c, ref):
         s.run(wall_timeout=800)
     finally:
         SIM.write_plan = None
+        SIM.write_chunk = 1 << 30
     c.evaluations += 1
     c.bump("paused" if results.get("paused") else "pause-not-reached")
     if results.get("paused") and 0 < k < len(docs[img]):
@@ -809,6 +837,7 @@ def run_s4(c, ref):
     rng = random.Random(plan["sched_seed"])
     SIM.write_chunk = plan["chunk"]
     s = Sched(rng=rng, script=plan.get("schedule"), switch_p=plan["switch_p"], max_steps=400000)
+    s.step_cost = float(plan.get("step_cost") or 0.0)
     names = []
     cli_images = plan.get("cli_images") or [plan.get("cli_image")] * len(plan["writers"])
     for i, kind in enumerate(plan["writers"]):
